@@ -351,7 +351,7 @@ func (c *compiler) evalUpdateIndex(left, index, value interface{}) error {
 		}
 
 		kv, err := assignableValue(index, mt.Key())
-		if err != nil {
+		if err != nil || (index != nil && !reflect.TypeOf(index).Comparable()) {
 			return fmt.Errorf("cannot use %v as %s value in map index", index, mt.Key())
 		}
 
